@@ -146,13 +146,21 @@ def provisional_sources(repo):
                             where[id(n)] = fn_
                     if sets and resets and fn_ is fi.node:
                         break
-                for n in ast.walk(fi.node):
-                    if isinstance(n, ast.Call) and isinstance(n.func, ast.Attribute) \
-                            and unparse(n.func.value) == 'self.' + mk:
-                        if n.func.attr in ('add', 'append'):
-                            sets.append(n)
-                        elif n.func.attr in ('remove', 'discard', 'pop'):
-                            resets.append(n)
+                for fn_ in setters:
+                    found_here = False
+                    for n in ast.walk(fn_):
+                        if isinstance(n, ast.Call) and isinstance(n.func, ast.Attribute) \
+                                and unparse(n.func.value) == 'self.' + mk and fn_.name != '__init__':
+                            if n.func.attr in ('add', 'append'):
+                                sets.append(n)
+                                where[id(n)] = fn_
+                                found_here = True
+                            elif n.func.attr in ('remove', 'discard', 'pop'):
+                                resets.append(n)
+                                where[id(n)] = fn_
+                                found_here = True
+                    if found_here and fn_ is fi.node:
+                        break
                 if sets and resets:
                     safe = all(_in_finally(r, where.get(id(r), fi.node)) for r in resets)
                     split = any(where.get(id(x), fi.node) is not fi.node for x in sets + resets)
